@@ -572,9 +572,9 @@ var roundtripTypes = []string{"Date", "DateTime", "HHmm", "SystemTime", "PIN", "
 
 func zoneList() []string {
 	if ev.Thorough() {
-		return zones.Names()
+		return append(zones.Names(), zones.Synthetic)
 	}
-	return zones.Spread(40)
+	return append(zones.Spread(40), zones.Synthetic)
 }
 
 func existingDay(t *rapid.T, loc *time.Location, label string) spec.Civil {
@@ -768,6 +768,46 @@ func sweep(yield func(jCase) bool) {
 					return
 				}
 				idx++
+			}
+		}
+	}
+	// text forms must not depend on the date they are parsed on: every time of day (and the days of this week) in a zone
+	// whose clock springs forward and falls back TODAY (and on every day of the current week)
+	for h := 0; h < 24; h++ {
+		for m := 0; m < 60; m++ {
+			for _, sec := range []int{0, 59} {
+				if ev.Mine(idx) && !yield(jCase{Type: "SystemTime", Zone: zones.Synthetic, A: spec.CivilDT{H: h, Mi: m, S: sec}}) {
+					return
+				}
+				idx++
+			}
+			if ev.Mine(idx) && !yield(jCase{Type: "HHmm", Zone: zones.Synthetic, HM: [7]spec.HM{{H: h, M: m}}}) {
+				return
+			}
+			idx++
+		}
+	}
+	{
+		now := time.Now().UTC()
+		for d := -3; d <= 4; d++ {
+			day := now.AddDate(0, 0, d)
+			a := spec.CivilDT{Y: day.Year(), M: int(day.Month()), D: day.Day()}
+			if ev.Mine(idx) && !yield(jCase{Type: "Date", Zone: zones.Synthetic, A: a, B: spec.Civil{Y: a.Y, M: a.M, D: a.D}}) {
+				return
+			}
+			idx++
+			for h := 0; h < 24; h++ {
+				dt := a
+				dt.H, dt.Mi, dt.S = h, 30, 15
+				if h == 2 {
+					continue // does not exist in this zone
+				}
+				for _, later := range []bool{false, true} {
+					if ev.Mine(idx) && !yield(jCase{Type: "DateTime", Zone: zones.Synthetic, A: dt, B: spec.Civil{Y: a.Y, M: a.M, D: a.D}, Later: later}) {
+						return
+					}
+					idx++
+				}
 			}
 		}
 	}
